@@ -162,6 +162,7 @@ def apply_op(obj, op, ctx, sig, case):
                 scribble[key].append(val)
         ctx.equal('editing a reloaded copy leaves the original object unchanged', _pairs(obj), before, sig, case)
         ctx.equal('editing a reloaded copy leaves the first copy unchanged', _pairs(new), before, sig, case)
+        _same_after_reload(obj, new, ctx, sig, case)
         ctx.equal('editing a reloaded copy leaves the dictionary unchanged',
                   (d.get('intervals'), d.get('slopes')), (d0['intervals'], d0['slopes']), sig, case)
         check_state(obj, ctx, dict(sig, after='edit of a reloaded copy'), case)
@@ -174,8 +175,21 @@ def apply_op(obj, op, ctx, sig, case):
                  type(new).__name__, 'PiecewiseCovEffect')
         if not isinstance(new, PiecewiseCovEffect):
             return obj, before
+        _same_after_reload(obj, new, ctx, sig, case)
         return new, before
     raise ValueError(kind)
+
+
+def _same_after_reload(obj, new, ctx, sig, case):
+    """Serialising and reloading leaves the object as it was: same breakpoints and slopes in the same
+    order (ties between equal breakpoints included) and the same function."""
+    a = ([float(v) for v in obj.intervals], [float(v) for v in obj.slopes])
+    b = ([float(v) for v in new.intervals], [float(v) for v in new.slopes])
+    ctx.equal('reload keeps breakpoints and slopes in their order', b, a, sig, case)
+    xs = sorted(set(a[0]) | {0.05, 0.4, 0.6, 0.95, 1.3} | {v + 0.01 for v in a[0]})
+    fa = [obj.get_UoRT(x=x, T=500.) for x in xs]
+    fb = [new.get_UoRT(x=x, T=500.) for x in xs]
+    ctx.close('reload leaves the function unchanged', fb, fa, sig, case, rtol=1e-12, atol=1e-12)
 
 
 def check_state(obj, ctx, sig, case):
@@ -183,6 +197,8 @@ def check_state(obj, ctx, sig, case):
     from pmutt import constants as c
     iv = [float(v) for v in obj.intervals]
     sl = [float(v) for v in obj.slopes]
+    if not ctx.true('at least one breakpoint is left', len(iv) > 0 and len(sl) > 0, sig, case, (iv, sl), 'non-empty'):
+        return False
     ok = ctx.true('len(intervals)==len(slopes)', len(iv) == len(sl), sig, case, (len(iv), len(sl)))
     ok &= ctx.true('breakpoints ascending', all(a <= b for a, b in zip(iv, iv[1:])), sig, case, iv,
                    'ascending')
